@@ -323,7 +323,11 @@ func main() {
 					switch n := c.Node().(type) {
 					case *ast.GoStmt:
 						// go f(a, b)  ->  zzsimsched.Go(site, func() { f(a, b) }) with the arguments evaluated now
-						site := fmt.Sprintf("%s:%d", rel, p.Fset.Position(n.Pos()).Line)
+						callee := "func"
+						if _, isLit := n.Call.Fun.(*ast.FuncLit); !isLit {
+							callee = types.ExprString(n.Call.Fun)
+						}
+						site := fmt.Sprintf("%s:%d:%s", rel, p.Fset.Position(n.Pos()).Line, callee)
 						var pre []ast.Stmt
 						call := n.Call
 						for i, a := range call.Args {
